@@ -131,9 +131,8 @@ def opt_combinator_handler(mir):
                     qp.pc.append(proj(v, "Some.0") == value)
                     value = v
                 extra = qp.pc[len(p.pc):]
-                out.append((z3.And(extra) if extra else z3.BoolVal(True), value))
-                # keep events recorded inside the closure
-                p.trace = qp.trace
+                # events recorded inside the closure belong to this fork only
+                out.append((z3.And(extra) if extra else z3.BoolVal(True), value, qp.trace[len(p.trace):]))
         return out
     return h
 
@@ -297,8 +296,9 @@ def decode_template(s):
         if n == 0:
             break
         if n >= 0x80:
+            # 0xc0: the next argument with default formatting (one byte); other placeholders carry options
             lits.append(None)
-            i += 2
+            i += 1 if n == 0xc0 else 2
             continue
         lits.append(b[i + 1:i + 1 + n].decode("latin-1"))
         i += 1 + n
